@@ -18,6 +18,12 @@ IMPORTS = ("From Coq Require Import List ZArith Floats.\nFrom SpdVerif Require I
 TWO_PI = 2 * math.pi
 
 
+def unknown_failing_input(ctx):
+    """a violation with a concrete failing input that is NOT a listed known finding (known findings must not switch the search off)"""
+    fs = load_findings()
+    return any(v["found_input"] and not match_finding(v, fs, ctx.prop) for v in ctx.violations)
+
+
 def fl(h):
     return f64_of_hex(h)
 
@@ -398,14 +404,14 @@ def run(ctx):
         correspondence(ctx, nm_obs, real)
     else:
         ctx.note("correspondence cases skipped: the model did not compile")
-    if (not proved or ctx.case_failures) and not any(v["found_input"] for v in ctx.violations):
+    if (not proved or ctx.case_failures) and not unknown_failing_input(ctx):
         ctx.log("S5 deep search for a failing input (proof obligations / correspondence are broken)")
         for k in range(2):
             o1 = run_harness(ctx, binp, ["c04", "poling", ctx.seed + 1000 + k, 1500])
             o2 = run_harness(ctx, binp, ["c04", "theta", ctx.seed + 1000 + k, 150], timeout=1200)
             oracle_poling(ctx, o1, [])
             oracle_theta(ctx, o2, [])
-            if any(v["found_input"] for v in ctx.violations):
+            if unknown_failing_input(ctx):
                 break
     ctx.cov["rule"] = ("nm: cost functions |x-a|, (x-a)^2, asymmetric V, two-well, constant, step, max(|x-a|, 2|x-b|) with dyadic data, seeds/bounds on a 1/16 grid "
                        "(bounds sometimes excluding a seed), max_iter 0..40, tolerance in {0, 2^-10, 2^-20, 1e-6}. poling: case i has crystal i mod 11, type (i div 11) mod 5, "
